@@ -11,12 +11,161 @@ Open Scope bool_scope.
 
 (* ================================================================== C19 *)
 
-(* raw forms (jennifer writes them verbatim): a `//` comment without a newline in it, a
-   `/* .. */` comment whose only terminator is its last two bytes *)
-Definition raw_line (t : str) : Prop :=
-  exists r, t = [x2f; x2f] ++ r /\ contains_byte x0a r = false.
-Definition raw_block (t : str) : Prop :=
-  exists b, t = [x2f; x2a] ++ b ++ [x2a; x2f] /\ contains s_close b = false.
+(* ---- trim_raw_preamble (Model/FileRender.v): strings.TrimRight(c, "\n") on raw blocks ---- *)
+
+Lemma trim_right_nl_nls n : trim_right_nl (repeat x0a n) = [].
+Proof. induction n as [|n IH]; [reflexivity|]. cbn [repeat trim_right_nl]. rewrite IH. reflexivity. Qed.
+
+Lemma trim_right_nl_app_nls u n : trim_right_nl (u ++ repeat x0a n) = trim_right_nl u.
+Proof.
+  induction u as [|c u IH]; [apply trim_right_nl_nls|].
+  cbn [app trim_right_nl]. rewrite IH. reflexivity.
+Qed.
+
+(* the result is a prefix; what is cut off is newlines only *)
+Lemma trim_right_nl_split s : exists n, s = trim_right_nl s ++ repeat x0a n.
+Proof.
+  induction s as [|c r [n IH]]; [exists 0%nat; reflexivity|].
+  cbn [trim_right_nl]. destruct (trim_right_nl r) as [|d r'] eqn:E.
+  - destruct (beq_spec c x0a) as [-> | Hne].
+    + exists (Datatypes.S n). cbn [app repeat]. f_equal. exact IH.
+    + exists n. cbn [app]. f_equal. exact IH.
+  - exists n. cbn [app]. f_equal. exact IH.
+Qed.
+
+(* the result does not end in a newline *)
+Lemma trim_right_nl_not_nl s : forall u, trim_right_nl s <> u ++ [x0a].
+Proof.
+  induction s as [|c r IH]; intros u; [apply app_cons_not_nil|].
+  cbn [trim_right_nl]. destruct (trim_right_nl r) as [|d r'] eqn:E.
+  - destruct (beq_spec c x0a) as [-> | Hne]; [apply app_cons_not_nil|].
+    destruct u as [|e u]; cbn [app]; intros H.
+    + injection H as H. contradiction.
+    + injection H as _ H. exact (app_cons_not_nil _ _ _ H).
+  - destruct u as [|e u]; cbn [app]; intros H.
+    + discriminate.
+    + injection H as _ H. exact (IH u H).
+Qed.
+
+Lemma ends_nl_suffix u : has_suffix [x0a] (u ++ [x0a]) = true.
+Proof. unfold has_suffix. rewrite rev_app_distr. reflexivity. Qed.
+
+Lemma no_suffix_nl s : has_suffix [x0a] s = false <-> forall u, s <> u ++ [x0a].
+Proof.
+  split.
+  - intros H u ->. rewrite ends_nl_suffix in H. discriminate.
+  - intros H. destruct (has_suffix [x0a] s) eqn:E; [|reflexivity].
+    destruct (has_suffix_nl s E) as [u ->]. exfalso. exact (H u eq_refl).
+Qed.
+
+(* identity on a text that does not end in a newline *)
+Lemma trim_right_nl_id s : (forall u, s <> u ++ [x0a]) -> trim_right_nl s = s.
+Proof.
+  intros H. destruct (trim_right_nl_split s) as [[|n] E].
+  - rewrite app_nil_r in E. symmetry. exact E.
+  - exfalso. cbn [repeat] in E. rewrite repeat_cons, app_assoc in E. exact (H _ E).
+Qed.
+
+(* the whole specification: the unique decomposition into a text that does not end in a
+   newline and a run of newlines *)
+Lemma trim_right_nl_unique s u n :
+  s = u ++ repeat x0a n -> (forall v, u <> v ++ [x0a]) -> trim_right_nl s = u.
+Proof. intros -> H. rewrite trim_right_nl_app_nls. apply trim_right_nl_id. exact H. Qed.
+
+Lemma is_raw_two a b r r' : is_raw_comment (a :: b :: r) = is_raw_comment (a :: b :: r').
+Proof. reflexivity. Qed.
+
+Lemma is_raw_one a : is_raw_comment [a] = false.
+Proof.
+  unfold is_raw_comment. change (S "//") with [x2f; x2f]. change (S "/*") with [x2f; x2a].
+  cbn [has_prefix]. rewrite !andb_false_r. reflexivity.
+Qed.
+Lemma is_raw_second_nl a r : is_raw_comment (a :: x0a :: r) = false.
+Proof.
+  unfold is_raw_comment. change (S "//") with [x2f; x2f]. change (S "/*") with [x2f; x2a].
+  cbn [has_prefix]. change (beq x2f x0a) with false. change (beq x2a x0a) with false.
+  cbn [andb]. rewrite !andb_false_r. reflexivity.
+Qed.
+
+(* trimming does not change the form (raw or not) of the text *)
+Lemma is_raw_trim_right_nl s : is_raw_comment (trim_right_nl s) = is_raw_comment s.
+Proof.
+  destruct s as [|a [|b r]]; [reflexivity| |].
+  - cbn [trim_right_nl]. rewrite is_raw_one. destruct (beq a x0a); [reflexivity | apply is_raw_one].
+  - cbn [trim_right_nl]. destruct (trim_right_nl r) as [|d r'].
+    + destruct (beq_spec b x0a) as [-> | Hb]; [|apply is_raw_two].
+      rewrite is_raw_second_nl. destruct (beq a x0a); [reflexivity | apply is_raw_one].
+    + apply is_raw_two.
+Qed.
+
+Lemma is_raw_trim t : is_raw_comment (trim_raw_preamble t) = is_raw_comment t.
+Proof.
+  unfold trim_raw_preamble. destruct (is_raw_comment t) eqn:E; [|exact E].
+  rewrite is_raw_trim_right_nl. exact E.
+Qed.
+
+(* C19_trim_idempotent *)
+Theorem trim_raw_idempotent t : trim_raw_preamble (trim_raw_preamble t) = trim_raw_preamble t.
+Proof.
+  unfold trim_raw_preamble at 1. rewrite is_raw_trim.
+  unfold trim_raw_preamble. destruct (is_raw_comment t); [|reflexivity].
+  apply trim_right_nl_id, trim_right_nl_not_nl.
+Qed.
+
+(* C19_trim_raw_no_trailing_newline *)
+Theorem trim_raw_no_trailing_newline t : is_raw_comment t = true ->
+  has_suffix [x0a] (trim_raw_preamble t) = false /\ forall u, trim_raw_preamble t <> u ++ [x0a].
+Proof.
+  intros H. unfold trim_raw_preamble. rewrite H.
+  split; [apply no_suffix_nl|]; apply trim_right_nl_not_nl.
+Qed.
+
+(* C19_trim_identity *)
+Theorem trim_raw_identity t :
+  is_raw_comment t = false \/ has_suffix [x0a] t = false -> trim_raw_preamble t = t.
+Proof.
+  intros [H | H]; unfold trim_raw_preamble.
+  - rewrite H. reflexivity.
+  - destruct (is_raw_comment t); [|reflexivity]. apply trim_right_nl_id, no_suffix_nl. exact H.
+Qed.
+
+(* C19_trim_removes_newlines_only *)
+Theorem trim_raw_prefix t : exists n, t = trim_raw_preamble t ++ repeat x0a n.
+Proof.
+  unfold trim_raw_preamble. destruct (is_raw_comment t).
+  - apply trim_right_nl_split.
+  - exists 0%nat. rewrite app_nil_r. reflexivity.
+Qed.
+
+(* C19_trim_is_TrimRight *)
+Theorem trim_raw_unique t u n : is_raw_comment t = true ->
+  t = u ++ repeat x0a n -> has_suffix [x0a] u = false -> trim_raw_preamble t = u.
+Proof.
+  intros H E Hu. unfold trim_raw_preamble. rewrite H.
+  apply (trim_right_nl_unique t u n E). apply no_suffix_nl. exact Hu.
+Qed.
+
+(* a raw text stays raw and is written as it is *)
+Lemma comment_text_raw t : is_raw_comment t = true -> comment_text t = t.
+Proof. unfold is_raw_comment, comment_text. intros ->. reflexivity. Qed.
+
+(* C19_trimmed_raw_is_verbatim *)
+Theorem trimmed_raw_verbatim t : is_raw_comment t = true ->
+  comment_text (trim_raw_preamble t) = trim_raw_preamble t.
+Proof. intros H. apply comment_text_raw. rewrite is_raw_trim. exact H. Qed.
+
+(* ---- the domain ---- *)
+
+(* the forms jennifer writes verbatim: a `//` comment without a newline in it, a `/* .. */`
+   comment whose only terminator is its last two bytes *)
+Definition line_form (u : str) : Prop :=
+  exists r, u = [x2f; x2f] ++ r /\ contains_byte x0a r = false.
+Definition block_form (u : str) : Prop :=
+  exists b, u = [x2f; x2a] ++ b ++ [x2a; x2f] /\ contains s_close b = false.
+(* raw texts of the domain: one of these forms followed by any number of newlines (they are
+   removed before the text is written) *)
+Definition raw_line (t : str) : Prop := exists u n, t = u ++ repeat x0a n /\ line_form u.
+Definition raw_block (t : str) : Prop := exists u n, t = u ++ repeat x0a n /\ block_form u.
 Definition preamble_domain (t : str) : Prop := in_domain t \/ raw_line t \/ raw_block t.
 
 (* the kind of comment a text is rendered as *)
@@ -53,34 +202,95 @@ Qed.
 Lemma run_open_line2 acc : lex_run MCode acc [x2f; x2f] = (flush KCode acc, MLine, [x2f; x2f]).
 Proof. destruct acc; reflexivity. Qed.
 
-Lemma raw_line_text t : raw_line t -> comment_text t = t /\ preamble_kind t = KLine.
+Lemma line_form_not_nl u : line_form u -> forall v, u <> v ++ [x0a].
 Proof.
-  intros (r & -> & _). unfold comment_text, preamble_kind.
-  change (has_prefix (S "//") ([x2f; x2f] ++ r)) with true. split; reflexivity.
+  intros (r & -> & Hr) v E. apply contains_byte_false in Hr. apply Hr.
+  assert (Hin : In x0a ([x2f; x2f] ++ r)) by (rewrite E; apply in_or_app; right; left; reflexivity).
+  destruct Hin as [H | [H | H]]; [discriminate | discriminate | exact H].
 Qed.
-Lemma raw_block_text t : raw_block t -> comment_text t = t /\ preamble_kind t = KBlock.
+Lemma block_form_not_nl u : block_form u -> forall v, u <> v ++ [x0a].
 Proof.
-  intros (b & -> & _). unfold comment_text, preamble_kind.
-  change (has_prefix (S "/*") ([x2f; x2a] ++ b ++ [x2a; x2f])) with true.
-  change (has_prefix (S "//") ([x2f; x2a] ++ b ++ [x2a; x2f])) with false.
-  split; reflexivity.
+  intros (b & -> & _) v E.
+  change ([x2f; x2a] ++ b ++ [x2a; x2f]) with ((x2f :: x2a :: b) ++ [x2a] ++ [x2f]) in E.
+  rewrite app_assoc in E. apply app_inj_tail in E. destruct E as [_ E]. discriminate.
+Qed.
+Lemma line_form_raw u r : line_form u -> is_raw_comment (u ++ r) = true /\ preamble_kind (u ++ r) = KLine.
+Proof. intros (x & -> & _). split; reflexivity. Qed.
+Lemma block_form_raw u r : block_form u -> is_raw_comment (u ++ r) = true /\ preamble_kind (u ++ r) = KBlock.
+Proof. intros (x & -> & _). split; reflexivity. Qed.
+
+(* what is written for a raw text of the domain: its verbatim form, without the newlines *)
+Lemma raw_line_text t : raw_line t ->
+  exists u, line_form u /\ trim_raw_preamble t = u /\ comment_text u = u /\ preamble_kind t = KLine.
+Proof.
+  intros (u & n & -> & Hu). exists u. destruct (line_form_raw u (repeat x0a n) Hu) as [Hr Hk].
+  split; [exact Hu|]. split; [|split; [|exact Hk]].
+  - unfold trim_raw_preamble. rewrite Hr. apply (trim_right_nl_unique _ u n eq_refl), line_form_not_nl, Hu.
+  - apply comment_text_raw. rewrite <- (app_nil_r u). apply (line_form_raw u [] Hu).
+Qed.
+Lemma raw_block_text t : raw_block t ->
+  exists u, block_form u /\ trim_raw_preamble t = u /\ comment_text u = u /\ preamble_kind t = KBlock.
+Proof.
+  intros (u & n & -> & Hu). exists u. destruct (block_form_raw u (repeat x0a n) Hu) as [Hr Hk].
+  split; [exact Hu|]. split; [|split; [|exact Hk]].
+  - unfold trim_raw_preamble. rewrite Hr. apply (trim_right_nl_unique _ u n eq_refl), block_form_not_nl, Hu.
+  - apply comment_text_raw. rewrite <- (app_nil_r u). apply (block_form_raw u [] Hu).
 Qed.
 Lemma in_domain_kind t : in_domain t -> preamble_kind t = comment_kind t.
 Proof. intros [[H1 H2] _]. unfold preamble_kind. rewrite H1, H2. reflexivity. Qed.
+Lemma in_domain_trim t : in_domain t -> trim_raw_preamble t = t.
+Proof.
+  intros [[H1 H2] _]. apply trim_raw_identity. left. unfold is_raw_comment. rewrite H1, H2. reflexivity.
+Qed.
+Lemma raw_is_raw t : raw_line t \/ raw_block t -> is_raw_comment t = true.
+Proof.
+  intros [(u & n & -> & Hu) | (u & n & -> & Hu)];
+    [apply (line_form_raw u _ Hu) | apply (block_form_raw u _ Hu)].
+Qed.
+
+(* C19_raw_line_written, C19_raw_block_written: the raw members of the domain spelled out *)
+Lemma raw_line_written r n : contains_byte x0a r = false ->
+  let t := S "//" ++ r ++ repeat x0a n in
+  preamble_domain t /\ comment_text (trim_raw_preamble t) = S "//" ++ r /\ preamble_kind t = KLine.
+Proof.
+  intros Hr t.
+  assert (Hl : raw_line t).
+  { exists (S "//" ++ r), n. split; [unfold t; rewrite <- app_assoc; reflexivity|]. exists r. split; [reflexivity | exact Hr]. }
+  split; [right; left; exact Hl|].
+  destruct (raw_line_text t Hl) as (u & _ & Eu & Ec & Ek). split; [|exact Ek].
+  rewrite Eu, Ec. rewrite <- Eu. unfold t.
+  apply trim_raw_unique with (n := n); [reflexivity | rewrite <- app_assoc; reflexivity|].
+  apply no_suffix_nl, line_form_not_nl. exists r. split; [reflexivity | exact Hr].
+Qed.
+Lemma raw_block_written b n : contains (S "*/") b = false ->
+  let t := S "/*" ++ b ++ S "*/" ++ repeat x0a n in
+  preamble_domain t /\ comment_text (trim_raw_preamble t) = S "/*" ++ b ++ S "*/" /\ preamble_kind t = KBlock.
+Proof.
+  intros Hb t.
+  assert (Hf : block_form (S "/*" ++ b ++ S "*/")) by (exists b; split; [reflexivity | exact Hb]).
+  assert (Et : t = (S "/*" ++ b ++ S "*/") ++ repeat x0a n).
+  { unfold t. rewrite <- !app_assoc. reflexivity. }
+  assert (Hl : raw_block t) by (exists (S "/*" ++ b ++ S "*/"), n; split; [exact Et | exact Hf]).
+  split; [right; right; exact Hl|].
+  destruct (raw_block_text t Hl) as (u & _ & Eu & Ec & Ek). split; [|exact Ek].
+  rewrite Eu, Ec. rewrite <- Eu.
+  apply trim_raw_unique with (n := n); [rewrite Et; apply (block_form_raw _ _ Hf) | exact Et|].
+  apply no_suffix_nl, block_form_not_nl, Hf.
+Qed.
 
 (* one preamble comment followed by its newline, from code: one comment region; the newline is
    the code that follows *)
 Lemma run_preamble_comment t acc : preamble_domain t ->
-  lex_run MCode acc (comment_text t ++ [x0a])
-  = (flush KCode acc ++ [(preamble_kind t, comment_text t)], MCode, [x0a]).
+  lex_run MCode acc (comment_text (trim_raw_preamble t) ++ [x0a])
+  = (flush KCode acc ++ [(preamble_kind t, comment_text (trim_raw_preamble t))], MCode, [x0a]).
 Proof.
   intros [Hd | [Hl | Hb]].
-  - rewrite in_domain_kind by exact Hd. apply run_comment_then_newline. exact Hd.
-  - destruct (raw_line_text t Hl) as [-> ->]. destruct Hl as (r & -> & Hr).
+  - rewrite in_domain_trim, in_domain_kind by exact Hd. apply run_comment_then_newline. exact Hd.
+  - destruct (raw_line_text t Hl) as (u & (r & -> & Hr) & -> & -> & ->).
     rewrite <- app_assoc. rewrite lex_run_app, run_open_line2.
     rewrite lex_run_app, run_line by exact Hr. rewrite run_nl_line.
     rewrite rev_app_distr, rev_involutive. cbn [app rev]. reflexivity.
-  - destruct (raw_block_text t Hb) as [-> ->]. destruct Hb as (b & -> & Hc).
+  - destruct (raw_block_text t Hb) as (u & (b & -> & Hc) & -> & -> & ->).
     rewrite <- app_assoc. rewrite lex_run_app, run_open_block.
     rewrite lex_run_app, block_scan0; [|exact Hc | left; reflexivity].
     rewrite run_nl_code. cbn [rev app]. reflexivity.
@@ -88,17 +298,19 @@ Qed.
 
 (* the regions of the comments after the first: a newline (code) and the comment *)
 Definition following_regions (cs : list str) : list region :=
-  flat_map (fun c => [(KCode, [x0a]); (preamble_kind c, comment_text c)]) cs.
+  flat_map (fun c => [(KCode, [x0a]); (preamble_kind c, comment_text (trim_raw_preamble c))]) cs.
 
 Lemma run_preamble_lines cs : Forall preamble_domain cs -> forall c0 acc, preamble_domain c0 ->
-  lex_run MCode acc (comment_lines (c0 :: cs))
-  = (flush KCode acc ++ (preamble_kind c0, comment_text c0) :: following_regions cs, MCode, [x0a]).
+  lex_run MCode acc (comment_lines (map trim_raw_preamble (c0 :: cs)))
+  = (flush KCode acc ++ (preamble_kind c0, comment_text (trim_raw_preamble c0)) :: following_regions cs,
+     MCode, [x0a]).
 Proof.
   induction cs as [|c cs IH]; intros Hd c0 acc H0.
   - unfold comment_lines. cbn [map concat_str]. rewrite app_nil_r.
     rewrite run_preamble_comment by exact H0. reflexivity.
   - inversion Hd as [|? ? Hc Hcs]; subst.
-    change (comment_lines (c0 :: c :: cs)) with ((comment_text c0 ++ [x0a]) ++ comment_lines (c :: cs)).
+    change (comment_lines (map trim_raw_preamble (c0 :: c :: cs)))
+      with ((comment_text (trim_raw_preamble c0) ++ [x0a]) ++ comment_lines (map trim_raw_preamble (c :: cs))).
     rewrite lex_run_app, run_preamble_comment by exact H0.
     rewrite (IH Hcs c [x0a] Hc). cbn [flush rev app following_regions flat_map].
     rewrite <- app_assoc. reflexivity.
@@ -106,8 +318,9 @@ Qed.
 
 Definition import_C : str := S "import " ++ [c_dq] ++ S "C" ++ [c_dq].
 
-Lemma preamble_block_layout cgo : preamble_block cgo = comment_lines cgo ++ import_C ++ [x0a; x0a].
-Proof. unfold preamble_block, comment_lines, import_C. rewrite <- !app_assoc. reflexivity. Qed.
+Lemma preamble_block_layout cgo :
+  preamble_block cgo = comment_lines (map trim_raw_preamble cgo) ++ import_C ++ [x0a; x0a].
+Proof. unfold preamble_block, comment_lines, import_C. rewrite map_map, <- !app_assoc. reflexivity. Qed.
 
 Lemma run_import_C : lex_run MCode [x0a] (import_C ++ [x0a; x0a])
   = ([(KCode, x0a :: S "import "); (KStr, [c_dq] ++ S "C" ++ [c_dq])], MCode, [x0a; x0a]).
@@ -117,7 +330,7 @@ Proof. vm_compute. reflexivity. Qed.
 Theorem preamble_is_doc c0 cs acc :
   Forall preamble_domain (c0 :: cs) ->
   lex_run MCode acc (preamble_block (c0 :: cs))
-  = (flush KCode acc ++ (preamble_kind c0, comment_text c0) :: following_regions cs ++
+  = (flush KCode acc ++ (preamble_kind c0, comment_text (trim_raw_preamble c0)) :: following_regions cs ++
      [(KCode, x0a :: S "import "); (KStr, [c_dq] ++ S "C" ++ [c_dq])],
      MCode, [x0a; x0a]).
 Proof.
@@ -126,24 +339,27 @@ Proof.
   rewrite run_import_C. rewrite <- app_assoc. reflexivity.
 Qed.
 
-(* what is excluded, and why: a raw `//` form that ends in a newline leaves an EMPTY line
-   between the comment and the import - the comment is no longer the import's doc comment
-   (cgo ignores it) ... *)
-Lemma raw_trailing_newline_detached :
+(* a raw `//` form that ENDS in a newline is in the domain since the trailing newlines of a
+   raw block are removed (jen.go, renderImports).  The code without that removal produced,
+   for this text, the regions
+     [(KLine, "//#include <a.h>"); (KCode, [x0a; x0a] ++ "import "); (KStr, "C")]:
+   an EMPTY line between the comment and the import - the comment was no longer the import's
+   doc comment and cgo ignored it. *)
+Lemma raw_trailing_newline_fixed :
   let t := S "//#include <a.h>" ++ [x0a] in
-  ~ preamble_domain t /\
+  preamble_domain t /\
+  trim_raw_preamble t = S "//#include <a.h>" /\
   lex_run MCode [] (preamble_block [t])
-  = ([(KLine, S "//#include <a.h>"); (KCode, [x0a; x0a] ++ S "import "); (KStr, [c_dq] ++ S "C" ++ [c_dq])],
+  = ([(KLine, S "//#include <a.h>"); (KCode, [x0a] ++ S "import "); (KStr, [c_dq] ++ S "C" ++ [c_dq])],
      MCode, [x0a; x0a]).
 Proof.
-  cbv zeta. split; [|vm_compute; reflexivity].
-  intros [[[H _] _] | [(r & E & Hr) | (b & E & _)]].
-  - vm_compute in H. discriminate.
-  - cbn in E. injection E as <-. vm_compute in Hr. discriminate.
-  - cbn in E. discriminate.
+  cbv zeta. split; [|split; vm_compute; reflexivity].
+  right. left. exists (S "//#include <a.h>"), 1%nat. split; [reflexivity|].
+  exists (S "#include <a.h>"). split; reflexivity.
 Qed.
 
-(* ... a raw `//` form with an inner newline puts its second line into CODE ... *)
+(* what stays excluded, and why: a raw `//` form with an inner newline puts its second line
+   into CODE ... *)
 Lemma raw_inner_newline_leaks :
   let t := S "//a" ++ [x0a] ++ S "b" in
   ~ preamble_domain t /\
@@ -152,10 +368,12 @@ Lemma raw_inner_newline_leaks :
      MCode, [x0a; x0a]).
 Proof.
   cbv zeta. split; [|vm_compute; reflexivity].
-  intros [[[H _] _] | [(r & E & Hr) | (b & E & _)]].
+  intros [[[H _] _] | [Hl | Hb]].
   - vm_compute in H. discriminate.
-  - cbn in E. injection E as <-. vm_compute in Hr. discriminate.
-  - cbn in E. discriminate.
+  - destruct (raw_line_text _ Hl) as (u & (r & -> & Hr) & E & _).
+    vm_compute in E. injection E as <-. vm_compute in Hr. discriminate.
+  - destruct (raw_block_text _ Hb) as (u & (b & -> & _) & E & _).
+    vm_compute in E. discriminate.
 Qed.
 
 (* ... and a text containing the block terminator ends its comment early. *)
@@ -167,10 +385,28 @@ Lemma inner_terminator_leaks :
       (KStr, [c_dq] ++ S "C" ++ [c_dq])], MCode, [x0a; x0a]).
 Proof.
   cbv zeta. split; [|vm_compute; reflexivity].
-  intros [[_ H] | [(r & E & Hr) | (b & E & _)]].
+  intros [[_ H] | Hr].
   - vm_compute in H. discriminate.
-  - cbn in E. discriminate.
-  - cbn in E. discriminate.
+  - apply raw_is_raw in Hr. vm_compute in Hr. discriminate.
+Qed.
+
+(* the same inside a raw block form: `/* a */ b */` is not of the form, and its tail is code *)
+Lemma raw_inner_terminator_leaks :
+  let t := S "/* a */ b */" in
+  ~ preamble_domain t /\
+  lex_run MCode [] (preamble_block [t])
+  = ([(KBlock, S "/* a */"); (KCode, S " b */" ++ [x0a] ++ S "import "); (KStr, [c_dq] ++ S "C" ++ [c_dq])],
+     MCode, [x0a; x0a]).
+Proof.
+  cbv zeta. split; [|vm_compute; reflexivity].
+  intros [[[_ H] _] | [Hl | Hb]].
+  - vm_compute in H. discriminate.
+  - destruct (raw_line_text _ Hl) as (u & (r & -> & Hr) & E & _).
+    vm_compute in E. discriminate.
+  - destruct (raw_block_text _ Hb) as (u & (b & -> & Hc) & E & _).
+    assert (Et : trim_raw_preamble (S "/* a */ b */") = [x2f; x2a] ++ S " a */ b " ++ [x2a; x2f])
+      by (vm_compute; reflexivity).
+    rewrite Et in E. apply app_inv_head, app_inv_tail in E. subst b. vm_compute in Hc. discriminate.
 Qed.
 
 (* a one-line text that ENDS in a newline is in the domain: it is rendered in block style
@@ -179,6 +415,7 @@ Lemma one_line_trailing_newline_in_domain t :
   contains_byte x0a t = false -> has_prefix (S "//") t = false -> has_prefix (S "/*") t = false ->
   contains (S "*/") (t ++ [x0a]) = false ->
   in_domain (t ++ [x0a]) /\
+  trim_raw_preamble (t ++ [x0a]) = t ++ [x0a] /\
   comment_text (t ++ [x0a]) = S "/*" ++ [x0a] ++ t ++ [x0a] ++ S "*/" /\
   preamble_kind (t ++ [x0a]) = KBlock.
 Proof.
@@ -193,7 +430,8 @@ Proof.
   { rewrite contains_byte_app. cbn. apply orb_true_r. }
   assert (Hs : has_suffix [x0a] (t ++ [x0a]) = true).
   { unfold has_suffix. rewrite rev_app_distr. reflexivity. }
-  split; [split; [split|]; assumption|]. split.
+  assert (Hd : in_domain (t ++ [x0a])) by (split; [split|]; assumption).
+  split; [exact Hd|]. split; [apply in_domain_trim; exact Hd|]. split.
   - unfold comment_text. rewrite Hp1, Hp2, Hnl, Hs. cbn [orb app]. rewrite <- !app_assoc. reflexivity.
   - unfold preamble_kind, comment_kind. rewrite Hp1, Hp2, Hnl. reflexivity.
 Qed.
